@@ -15,26 +15,45 @@
                                      every reachable state has
      est_distance                    SOUND when the distance matrix has no
                                      negative entry (hypothesis distances_nonneg)
-     est_max_wait_stop               SOUND (the early break is harmless: equal
-                                     arrival => equal start/end downstream)
+     est_max_wait_stop               SOUND as the code is now (the early break
+                                     is harmless: equal arrival AND equal end
+                                     at a planned stop => the rest of the
+                                     schedule is the old one, duration groups
+                                     or not: the next stop has the same
+                                     predecessor as before)
      est_max_wait_vehicle            SOUND as the code is now: the early break
-                                     is guarded by "the wait accumulated in
-                                     front of the stop is not larger than the
-                                     cached one", so downstream accumulated
-                                     waits can only shrink.
-     est_max_wait_vehicle_prefix     (the estimate BEFORE the fix, no guard,
+                                     is moreover guarded by "the wait
+                                     accumulated in front of the stop is not
+                                     larger than the cached one", so downstream
+                                     accumulated waits can only shrink.
+     est_max_wait_*_arrival_only     (Model/Estimates.v: the break BEFORE the
+                                     repair of the duration-group defect,
+                                     arrival only) NOT SOUND with duration
+                                     groups: the time spent at the stop depends
+                                     on the stop in front of it (section 8:
+                                     dg_break_refuted, dg_break_refuted_vehicle;
+                                     the witness replayed on the real code and
+                                     led to the repair).  Sound, and equal to
+                                     the repaired estimates, when the groups
+                                     are inert (C09_check_end_equivalent_
+                                     without_groups_proof).
+     est_max_wait_vehicle_prefix     (the estimate BEFORE the fix of the guard:
+                                     the code as it is now without the guard,
                                      defined here) NOT SOUND: the break forgot
                                      that the accumulated wait downstream
                                      includes the waits of the inserted stops
                                      (C09_max_wait_vehicle_refuted_proof; the
                                      witness replayed on the real code and led
                                      to the fix).  It was sound only for metric
-                                     travel durations and stop durations >= 0.
+                                     travel durations and stop and group
+                                     durations >= 0.
 
    Main results: C09_executable_executes_proof (full strength, current code),
    C09_prefix_executable_executes_partial_proof / _refuted_proof and
-   C09_max_wait_vehicle_refuted_proof (code before the fix),
-   C09_fixed_estimate_rejects_witness_proof, C09_fix_only_stricter_proof. *)
+   C09_max_wait_vehicle_refuted_proof (code before the fix of the guard),
+   C09_fixed_estimate_rejects_witness_proof, C09_fix_only_stricter_proof,
+   dg_break_refuted / dg_break_refuted_vehicle / dg_repaired_rejects (code
+   before / after the repair of the duration-group defect). *)
 
 From Coq Require Import List ZArith Bool Arith Lia Permutation Sorted.
 From NR Require Import Model.Engine Model.Estimates
@@ -183,15 +202,45 @@ Proof.
 Qed.
 
 (* the temporal fields of the next cell depend on the predecessor only through
-   its stop and its end; start and end depend on the arrival only *)
+   its stop and its end; the start depends on the arrival only, the end on the
+   arrival and on the duration-group part of the time spent at the stop (which
+   looks at the predecessor's stop) *)
 Lemma nc_start_of_arrival (inp : input) (v : nat) (p q : cell) (x : nat) :
+  dgroup_extra inp (c_stop p) x = dgroup_extra inp (c_stop q) x ->
   c_arrival (next_cell inp v p x) = c_arrival (next_cell inp v q x) ->
   c_start (next_cell inp v p x) = c_start (next_cell inp v q x) /\
   c_end (next_cell inp v p x) = c_end (next_cell inp v q x).
 Proof.
-  intros E. assert (Es : c_start (next_cell inp v p x) = c_start (next_cell inp v q x)).
+  intros Eg E. assert (Es : c_start (next_cell inp v p x) = c_start (next_cell inp v q x)).
   { rewrite !nc_start, E. reflexivity. }
-  split; [exact Es|]. rewrite !nc_end, Es. reflexivity.
+  split; [exact Es|]. rewrite !nc_end, Es. unfold stop_duration_at. rewrite Eg. reflexivity.
+Qed.
+
+(* the start depends on the arrival only *)
+Lemma nc_start_eq (inp : input) (v : nat) (p q : cell) (x : nat) :
+  c_arrival (next_cell inp v p x) = c_arrival (next_cell inp v q x) ->
+  c_start (next_cell inp v p x) = c_start (next_cell inp v q x).
+Proof. intros E. rewrite !nc_start, E. reflexivity. Qed.
+
+(* equal arrival and equal end: equal group part of the time spent at the stop *)
+Lemma nc_extra_of_end (inp : input) (v : nat) (p q : cell) (x : nat) :
+  c_arrival (next_cell inp v p x) = c_arrival (next_cell inp v q x) ->
+  c_end (next_cell inp v p x) = c_end (next_cell inp v q x) ->
+  dgroup_extra inp (c_stop p) x = dgroup_extra inp (c_stop q) x.
+Proof.
+  intros Ea Ee. pose proof (nc_start_eq inp v p q x Ea) as Es.
+  rewrite !nc_end, Es in Ee. unfold stop_duration_at in Ee. lia.
+Qed.
+
+(* what the estimates compute for the end, against the cached cell: when the
+   group part does not depend on the predecessor, equal arrival gives equal end *)
+Lemma tv_end_of_arrival (inp : input) (v : nat) (po : cell) (x : nat) (endv : Z) (prev : nat) :
+  dgroup_extra inp prev x = dgroup_extra inp (c_stop po) x ->
+  forall tr ar st en, temporal_values inp endv prev x = (tr, ar, st, en) ->
+  ar = c_arrival (next_cell inp v po x) -> en = c_end (next_cell inp v po x).
+Proof.
+  intros Eg tr ar st en E Ea. unfold temporal_values in E. injection E as _ Ear Est Een.
+  rewrite <- Een, nc_end, nc_start, <- Ea, <- Ear. unfold stop_duration_at. rewrite Eg. reflexivity.
 Qed.
 
 Local Opaque next_cell temporal_values.
@@ -224,7 +273,8 @@ Proof.
   intros (Hs & _ & _ & He).
   assert (Ea : c_arrival (next_cell inp v c1 x) = c_arrival (next_cell inp v c2 x)).
   { rewrite !nc_arrival, !nc_travel, Hs, He. reflexivity. }
-  destruct (nc_start_of_arrival inp v c1 c2 x Ea) as (E1 & E2).
+  destruct (nc_start_of_arrival inp v c1 c2 x (f_equal (fun a => dgroup_extra inp a x) Hs) Ea)
+    as (E1 & E2).
   unfold teq. rewrite !nc_stop. auto.
 Qed.
 
@@ -563,7 +613,7 @@ Qed.
    caller wants to know about the pair (new cell, old cell) reached so far;
    [Hbreak] is what must hold when the simulation stops early. *)
 Section SimWait.
-  Variables (inp : input) (v : nat) (us : list nat) (old : list cell).
+  Variables (check_end : bool) (inp : input) (v : nat) (us : list nat) (old : list cell).
   Variable violated : Z -> Z -> nat -> bool.
   Variable guard : Z -> nat -> bool.
   Variable K : Z.
@@ -579,6 +629,7 @@ Section SimWait.
     J (next_cell inp v pc x) (next_cell inp v po x).
   Hypothesis Hbreak : forall pc po x rest, J pc po -> dom x -> Forall dom rest ->
     c_arrival (next_cell inp v pc x) = c_arrival (next_cell inp v po x) ->
+    (check_end = true -> c_end (next_cell inp v pc x) = c_end (next_cell inp v po x)) ->
     guard (c_wait_acc pc + K) x = true -> prev_acc old x = c_wait_acc po ->
     Forall (cell_passes inp v) (next_cell inp v po x :: cells_from inp v (next_cell inp v po x) rest) ->
     Forall Q (next_cell inp v pc x :: cells_from inp v (next_cell inp v pc x) rest).
@@ -590,7 +641,7 @@ Section SimWait.
       Forall (cell_passes inp v) (cells_from inp v po (filter (not_in us) stops)) ->
       to_place = length (filter (fun x => mem_nat x us) stops) ->
       acc = c_wait_acc pc + K -> endv = c_end pc -> prev = c_stop pc -> J pc po ->
-      sim_wait inp us old endv prev stops to_place acc violated guard = false ->
+      sim_wait check_end inp us old endv prev stops to_place acc violated guard = false ->
       Forall Q (cells_from inp v pc stops).
   Proof.
     induction stops as [|x rest IH]; intros pc po pre to_place acc endv prev Hdom Hold Hok -> -> -> -> HJ H;
@@ -612,9 +663,12 @@ Section SimWait.
     - (* a planned stop *)
       cbn [cells_from] in Hold, Hok. set (co := next_cell inp v po x) in *.
       destruct ((Nat.eqb (length (filter (fun x0 => mem_nat x0 us) rest)) 0 && true &&
-                 (c_arrival c =? c_arrival (cell_of_stop old x)) && guard (c_wait_acc pc + K) x)%bool) eqn:Eb.
+                 (c_arrival c =? c_arrival (cell_of_stop old x)) &&
+                 (negb check_end || (c_end c =? c_end (cell_of_stop old x))) &&
+                 guard (c_wait_acc pc + K) x)%bool) eqn:Eb.
       + (* the early break *)
         apply andb_true_iff in Eb. destruct Eb as (Eb & Eg).
+        apply andb_true_iff in Eb. destruct Eb as (Eb & Ee).
         apply andb_true_iff in Eb. destruct Eb as (Eb & Ea). apply andb_true_iff in Eb.
         destruct Eb as (Eb & _). apply Nat.eqb_eq in Eb. apply Z.eqb_eq in Ea.
         apply length_zero_iff_nil in Eb.
@@ -624,13 +678,15 @@ Section SimWait.
         assert (Hco : cell_of_stop old x = co).
         { unfold cell_of_stop. rewrite <- (nc_stop inp v po x). fold co. rewrite Hold at 1.
           rewrite find_stop_unique; [reflexivity|]. rewrite <- Hold. exact Hnd. }
-        rewrite Hco in Ea.
+        rewrite Hco in Ea, Ee.
+        assert (Ee' : check_end = true -> c_end c = c_end co).
+        { intros Ec. rewrite Ec in Ee. cbn [negb orb] in Ee. apply Z.eqb_eq. exact Ee. }
         assert (Hpa : prev_acc old x = c_wait_acc po).
         { assert (Hold2 : old = pre ++ po :: co :: cells_from inp v co rest)
             by (rewrite Hold, <- app_assoc; reflexivity).
           rewrite <- (nc_stop inp v po x). fold co. rewrite Hold2 at 1.
           apply prev_acc_unique. rewrite <- Hold2. exact Hnd. }
-        exact (Hbreak pc po x rest HJ Hdx Hdr Ea Eg Hpa Hok).
+        exact (Hbreak pc po x rest HJ Hdx Hdr Ea Ee' Eg Hpa Hok).
       + rewrite Hacc in H.
         destruct (violated (c_wait_acc c + K) (c_start c - c_arrival c) x) eqn:Ev; [discriminate|].
         constructor; [apply Hviol; rewrite Hx; exact Ev|].
@@ -641,6 +697,38 @@ Section SimWait.
         apply Jboth; assumption.
   Qed.
 End SimWait.
+
+(* when the group part of the time spent at a stop does not depend on the stop
+   in front of it, comparing the ends at the break is redundant: the two
+   versions of the simulation are the same function *)
+Lemma sim_wait_check_end_irrel (inp : input) (v : nat) (us : list nat) (old : list cell)
+      (violated : Z -> Z -> nat -> bool) (guard : Z -> nat -> bool) :
+  NoDup (map c_stop old) ->
+  (forall a b x, dgroup_extra inp a x = dgroup_extra inp b x) ->
+  forall (stops : list nat) (po : cell) (pre : list cell) (to_place : nat) (acc endv : Z) (prev : nat),
+    old = (pre ++ [po]) ++ cells_from inp v po (filter (not_in us) stops) ->
+    sim_wait true inp us old endv prev stops to_place acc violated guard =
+    sim_wait false inp us old endv prev stops to_place acc violated guard.
+Proof.
+  intros Hnd Hg. induction stops as [|x rest IH]; intros po pre to_place acc endv prev Hold; [reflexivity|].
+  cbn [sim_wait].
+  destruct (temporal_values inp endv prev x) as [[[tr ar] st] en] eqn:Etv.
+  cbn [filter] in Hold. destruct (mem_nat x us) eqn:Em; cbn [negb orb] in *.
+  - rewrite (IH po pre _ _ _ _ Hold). rewrite !andb_false_r. reflexivity.
+  - cbn [cells_from] in Hold. set (co := next_cell inp v po x) in *.
+    assert (Hco : cell_of_stop old x = co).
+    { unfold cell_of_stop. rewrite <- (nc_stop inp v po x). fold co. rewrite Hold at 1.
+      rewrite find_stop_unique; [reflexivity|]. rewrite <- Hold. exact Hnd. }
+    rewrite Hco.
+    assert (Hold' : old = ((pre ++ [po]) ++ [co]) ++ cells_from inp v co (filter (not_in us) rest))
+      by (rewrite <- (app_assoc (pre ++ [po])); exact Hold).
+    rewrite (IH co (pre ++ [po]) _ _ _ _ Hold').
+    destruct (ar =? c_arrival co) eqn:Ea.
+    + apply Z.eqb_eq in Ea.
+      rewrite (tv_end_of_arrival inp v po x endv prev (Hg _ _ _) tr ar st en Etv Ea).
+      fold co. rewrite Z.eqb_refl. reflexivity.
+    + rewrite !andb_false_r. reflexivity.
+Qed.
 
 Lemma Forall_last_default {A} (P : A -> Prop) (l : list A) (d : A) :
   Forall P l -> P d -> P (last l d).
@@ -680,6 +768,80 @@ Definition distances_nonneg (inp : input) : Prop :=
 (* no negative stop duration *)
 Definition stop_durations_nonneg (inp : input) : Prop :=
   Forall (fun st => 0 <= is_duration st) (in_stops inp).
+
+(* duration groups play no role: they are disabled, or every group duration is 0
+   (in particular: there are no groups) *)
+Definition dgroups_inert (inp : input) : Prop :=
+  o_dis_dgroups (in_opts inp) = true \/ Forall (fun g => snd g = 0) (in_dgroups inp).
+
+Lemma dgroup_extra_inert (inp : input) (a x : nat) : dgroups_inert inp -> dgroup_extra inp a x = 0.
+Proof.
+  intros [H|H]; unfold dgroup_extra; [rewrite H; reflexivity|].
+  destruct (o_dis_dgroups (in_opts inp)); [reflexivity|].
+  assert (Hd : forall g, dgroup_duration inp g = 0).
+  { intros g. unfold dgroup_duration.
+    destruct (Nat.lt_ge_cases g (length (in_dgroups inp))) as [Hg|Hg].
+    - rewrite Forall_forall in H. apply H. apply nth_In. exact Hg.
+    - rewrite nth_overflow by exact Hg. reflexivity. }
+  destruct (dgroup_of inp x) as [g|]; [|reflexivity].
+  destruct (dgroup_of inp a) as [g'|]; [|apply Hd].
+  destruct (Nat.eqb g g'); [reflexivity|apply Hd].
+Qed.
+
+(* no negative group duration (or the groups are disabled): needed only for the
+   vehicle max-wait estimate BEFORE the fix of its guard, next to
+   stop_durations_nonneg *)
+Definition dgroups_nonneg (inp : input) : Prop :=
+  o_dis_dgroups (in_opts inp) = true \/ Forall (fun g => 0 <= snd g) (in_dgroups inp).
+
+Lemma dgroups_inert_nonneg (inp : input) : dgroups_inert inp -> dgroups_nonneg inp.
+Proof.
+  intros [H|H]; [left; exact H|right]. eapply Forall_impl; [|exact H]. cbv beta. intros g E. lia.
+Qed.
+
+Lemma dgroup_duration_nonneg (inp : input) (g : nat) :
+  Forall (fun g => 0 <= snd g) (in_dgroups inp) -> 0 <= dgroup_duration inp g.
+Proof.
+  intros H. unfold dgroup_duration.
+  destruct (Nat.lt_ge_cases g (length (in_dgroups inp))) as [Hg|Hg].
+  - rewrite Forall_forall in H. apply H. apply nth_In. exact Hg.
+  - rewrite nth_overflow by exact Hg. cbn [snd]. lia.
+Qed.
+
+Lemma dgroup_extra_nonneg (inp : input) (a x : nat) : dgroups_nonneg inp -> 0 <= dgroup_extra inp a x.
+Proof.
+  intros [H|H]; unfold dgroup_extra; [rewrite H; lia|].
+  destruct (o_dis_dgroups (in_opts inp)); [lia|].
+  pose proof (dgroup_duration_nonneg inp) as Hd.
+  destruct (dgroup_of inp x) as [g|]; [|lia].
+  destruct (dgroup_of inp a) as [g'|]; [|apply Hd; exact H].
+  destruct (Nat.eqb g g'); [lia|apply Hd; exact H].
+Qed.
+
+(* the group part of the time spent at a stop satisfies a triangle inequality:
+   going through a third stop never saves a group duration *)
+Lemma dgroup_extra_triangle (inp : input) (a u z : nat) :
+  dgroups_nonneg inp -> dgroup_extra inp a z <= dgroup_extra inp a u + dgroup_extra inp u z.
+Proof.
+  intros Hn. pose proof (dgroup_extra_nonneg inp a u Hn) as H1.
+  pose proof (dgroup_extra_nonneg inp u z Hn) as H2. revert H1 H2.
+  destruct Hn as [H|H]; unfold dgroup_extra; [rewrite H; lia|].
+  destruct (o_dis_dgroups (in_opts inp)); [lia|].
+  pose proof (dgroup_duration_nonneg inp) as Hd.
+  destruct (dgroup_of inp z) as [g|]; [|lia].
+  destruct (dgroup_of inp u) as [gu|].
+  - destruct (Nat.eqb g gu) eqn:E.
+    + apply Nat.eqb_eq in E. subst gu. destruct (dgroup_of inp a) as [ga|]; [|lia].
+      destruct (Nat.eqb g ga); lia.
+    + destruct (dgroup_of inp a) as [ga|].
+      * destruct (Nat.eqb g ga), (Nat.eqb gu ga); lia.
+      * lia.
+  - destruct (dgroup_of inp a) as [ga|]; [destruct (Nat.eqb g ga)|]; lia.
+Qed.
+
+Lemma stop_duration_at_inert (inp : input) (a x : nat) :
+  dgroups_inert inp -> stop_duration_at inp a x = stop_duration inp x.
+Proof. intros H. unfold stop_duration_at. rewrite (dgroup_extra_inert inp a x H). lia. Qed.
 
 (* travel durations (as the engine sees them: 0 from/to a missing vehicle
    location) satisfy the triangle inequality on the model's stops *)
@@ -731,7 +893,8 @@ Qed.
 Definition busy (c : cell) : Z := c_end c - c_wait_acc c.
 
 Lemma busy_step (inp : input) (v : nat) (p : cell) (x : nat) :
-  busy (next_cell inp v p x) = busy p + travel_duration inp (c_stop p) x + stop_duration inp x.
+  busy (next_cell inp v p x)
+  = busy p + travel_duration inp (c_stop p) x + stop_duration_at inp (c_stop p) x.
 Proof.
   unfold busy. rewrite nc_end, nc_wait_eq, nc_arrival, nc_travel. lia.
 Qed.
@@ -747,7 +910,9 @@ Qed.
 
 (* ------------------------------------------------------------------ *)
 (* The vehicle max-wait estimate BEFORE the fix (the early break had no  *)
-(* guard on the accumulated wait): kept to document the defect          *)
+(* guard on the accumulated wait): kept to document the defect.  It is  *)
+(* the estimate of the code as it is now (the break compares arrival    *)
+(* AND end) with the guard removed, so that it isolates that defect.    *)
 (* ------------------------------------------------------------------ *)
 
 Definition est_max_wait_vehicle_prefix (inp : input) (s : state) (mv : move) : bool :=
@@ -756,7 +921,7 @@ Definition est_max_wait_vehicle_prefix (inp : input) (s : state) (mv : move) : b
   match iv_max_wait (get_vehicle inp (mv_vehicle mv)) with
   | None => false
   | Some w =>
-      sim_wait inp us (h_old h) (c_end (h_prev h)) (c_stop (h_prev h)) (h_suffix h) (length us)
+      sim_wait true inp us (h_old h) (c_end (h_prev h)) (c_stop (h_prev h)) (h_suffix h) (length us)
                (c_wait_acc (h_prev h)) (fun acc _ _ => w <? acc) (fun _ _ => true)
   end.
 
@@ -1059,54 +1224,118 @@ Section Ctx.
   Proof. exact ctx_nodup. Qed.
 
   (* the common set-up of the three max-wait simulations *)
-  Lemma ctx_sim_wait (violated : Z -> Z -> nat -> bool) (guard : Z -> nat -> bool) (K : Z)
+  Lemma ctx_sim_wait (check_end : bool) (violated : Z -> Z -> nat -> bool) (guard : Z -> nat -> bool) (K : Z)
         (Q : cell -> Prop) (J : cell -> cell -> Prop) (dom : nat -> Prop) (acc0 : Z) :
     (forall c, violated (c_wait_acc c + K) (c_start c - c_arrival c) (c_stop c) = false -> Q c) ->
     (forall pc po x, dom x -> mem_nat x US = true -> J pc po -> J (next_cell inp vv pc x) po) ->
     (forall pc po x, dom x -> J pc po -> J (next_cell inp vv pc x) (next_cell inp vv po x)) ->
     (forall pc po x rest, J pc po -> dom x -> Forall dom rest ->
        c_arrival (next_cell inp vv pc x) = c_arrival (next_cell inp vv po x) ->
+       (check_end = true -> c_end (next_cell inp vv pc x) = c_end (next_cell inp vv po x)) ->
        guard (c_wait_acc pc + K) x = true -> prev_acc OLD x = c_wait_acc po ->
        Forall (cell_passes inp vv)
               (next_cell inp vv po x :: cells_from inp vv (next_cell inp vv po x) rest) ->
        Forall Q (next_cell inp vv pc x :: cells_from inp vv (next_cell inp vv pc x) rest)) ->
     Forall dom NSUF -> J PC PC -> acc0 = c_wait_acc PC + K ->
-    sim_wait inp US OLD (c_end PC) (c_stop PC) NSUF (length US) acc0 violated guard = false ->
+    sim_wait check_end inp US OLD (c_end PC) (c_stop PC) NSUF (length US) acc0 violated guard = false ->
     Forall Q (cells_from inp vv PC NSUF).
   Proof.
     intros Hviol Jins Jboth Hbreak Hdom HJ Hacc H.
     destruct ctx_idx as (_ & HIL & HLL).
     assert (HIDX : (IDX < length OLD)%nat) by lia.
-    refine (sim_wait_sound inp vv US OLD violated guard K Q J dom ctx_old_nodup Hviol Jins Jboth Hbreak
+    refine (sim_wait_sound check_end inp vv US OLD violated guard K Q J dom ctx_old_nodup Hviol Jins Jboth Hbreak
               NSUF PC PC (firstn IDX OLD) _ _ _ _ Hdom _ _ _ Hacc eq_refl eq_refl HJ H).
     - rewrite ctx_filter, <- (firstn_S_nth OLD IDX dummy_cell HIDX). exact (ctx_old_split IDX HIDX).
     - rewrite ctx_filter. exact (ctx_old_ok IDX HIDX).
     - symmetry. exact ctx_cnt.
   Qed.
 
-  Lemma est_max_wait_stop_sound :
-    est_max_wait_stop inp s mv = false ->
+  Lemma ctx_check_end_irrel (violated : Z -> Z -> nat -> bool) (guard : Z -> nat -> bool) (acc0 : Z) :
+    dgroups_inert inp ->
+    sim_wait true inp US OLD (c_end PC) (c_stop PC) NSUF (length US) acc0 violated guard =
+    sim_wait false inp US OLD (c_end PC) (c_stop PC) NSUF (length US) acc0 violated guard.
+  Proof.
+    intros Hdg. destruct ctx_idx as (_ & HIL & HLL).
+    assert (HIDX : (IDX < length OLD)%nat) by lia.
+    apply (sim_wait_check_end_irrel inp vv US OLD violated guard ctx_old_nodup) with (po := PC) (pre := firstn IDX OLD).
+    - intros a b x. rewrite !dgroup_extra_inert by exact Hdg. reflexivity.
+    - rewrite ctx_filter, <- (firstn_S_nth OLD IDX dummy_cell HIDX). exact (ctx_old_split IDX HIDX).
+  Qed.
+
+  Lemma est_max_wait_check_end_irrel :
+    dgroups_inert inp ->
+    est_max_wait_stop_arrival_only inp s mv = est_max_wait_stop inp s mv /\
+    est_max_wait_vehicle_arrival_only inp s mv = est_max_wait_vehicle inp s mv.
+  Proof.
+    intros Hdg.
+    unfold est_max_wait_stop_arrival_only, est_max_wait_stop, est_max_wait_vehicle_arrival_only,
+      est_max_wait_vehicle.
+    cbv beta zeta iota delta [est_max_wait_stop_gen est_max_wait_vehicle_gen hypo_of h_prev h_suffix h_old].
+    split.
+    - symmetry. apply ctx_check_end_irrel. exact Hdg.
+    - destruct (iv_max_wait (get_vehicle inp vv)); [|reflexivity].
+      symmetry. apply ctx_check_end_irrel. exact Hdg.
+  Qed.
+
+  (* a break point where arrival and end are those of the old cell: the rest of
+     the new chain has the temporal values of the old one *)
+  Lemma break_teq (pc po : cell) (x : nat) (rest : list nat) :
+    c_arrival (next_cell inp vv pc x) = c_arrival (next_cell inp vv po x) ->
+    c_end (next_cell inp vv pc x) = c_end (next_cell inp vv po x) ->
+    Forall2 teq (next_cell inp vv pc x :: cells_from inp vv (next_cell inp vv pc x) rest)
+                (next_cell inp vv po x :: cells_from inp vv (next_cell inp vv po x) rest).
+  Proof.
+    intros Ea Ee. pose proof (nc_start_eq inp vv pc po x Ea) as Es.
+    assert (Ht : teq (next_cell inp vv pc x) (next_cell inp vv po x)).
+    { unfold teq. rewrite !nc_stop. auto. }
+    constructor; [exact Ht|]. exact (cells_from_rel inp vv teq (teq_step inp vv) rest _ _ Ht).
+  Qed.
+
+  Lemma max_wait_stop_break (pc po : cell) (x : nat) (rest : list nat) :
+    c_arrival (next_cell inp vv pc x) = c_arrival (next_cell inp vv po x) ->
+    c_end (next_cell inp vv pc x) = c_end (next_cell inp vv po x) ->
+    Forall (cell_passes inp vv)
+           (next_cell inp vv po x :: cells_from inp vv (next_cell inp vv po x) rest) ->
+    Forall (cl_max_wait_stop inp vv)
+           (next_cell inp vv pc x :: cells_from inp vv (next_cell inp vv pc x) rest).
+  Proof.
+    intros Ea Ee Hok.
+    apply (Forall2_transfer teq (cell_passes inp vv) (cl_max_wait_stop inp vv) _ _
+             (break_teq pc po x rest Ea Ee)); [|exact Hok].
+    intros a b (E1 & E2 & E3 & _) Hb.
+    destruct (passes_clauses inp vv b Hb) as (_ & _ & _ & _ & H5 & _).
+    unfold cl_max_wait_stop in *. rewrite E1, E2, E3. exact H5.
+  Qed.
+
+  (* both versions of the stop estimate; the one that compares the arrival only
+     needs the group part of the time spent at a stop to be independent of the
+     stop in front of it *)
+  Lemma est_max_wait_stop_gen_sound (check_end : bool) :
+    (check_end = false -> dgroups_inert inp) ->
+    est_max_wait_stop_gen check_end inp s mv = false ->
     Forall (cl_max_wait_stop inp vv) (cells_from inp vv PC NSUF).
   Proof.
-    intros H. cbv beta zeta iota delta [est_max_wait_stop hypo_of h_prev h_suffix h_old] in H.
-    refine (ctx_sim_wait _ _ (- c_wait_acc PC) (cl_max_wait_stop inp vv)
+    intros Hdg H. cbv beta zeta iota delta [est_max_wait_stop_gen hypo_of h_prev h_suffix h_old] in H.
+    refine (ctx_sim_wait check_end _ _ (- c_wait_acc PC) (cl_max_wait_stop inp vv)
               (fun _ _ => True) (fun _ => True) 0 _ _ _ _ _ I _ H).
     - intros c Hc _ Hi w Ew. cbv beta in Hc. rewrite Hi, Ew in Hc. apply Z.ltb_ge in Hc. exact Hc.
     - auto.
     - auto.
-    - intros pc po x rest _ _ _ Ea _ _ Hok.
-      destruct (nc_start_of_arrival inp vv pc po x Ea) as (Es & Ee).
-      assert (Ht : teq (next_cell inp vv pc x) (next_cell inp vv po x)).
-      { unfold teq. rewrite !nc_stop. auto. }
-      pose proof (cells_from_rel inp vv teq (teq_step inp vv) rest _ _ Ht) as HF2.
-      apply (Forall2_transfer teq (cell_passes inp vv) (cl_max_wait_stop inp vv) _ _
-               (Forall2_cons _ _ Ht HF2)); [|exact Hok].
-      intros a b (E1 & E2 & E3 & _) Hb.
-      destruct (passes_clauses inp vv b Hb) as (_ & _ & _ & _ & H5 & _).
-      unfold cl_max_wait_stop in *. rewrite E1, E2, E3. exact H5.
+    - intros pc po x rest _ _ _ Ea Ee _ _ Hok.
+      apply (max_wait_stop_break pc po x rest Ea); [|exact Hok].
+      destruct check_end; [exact (Ee eq_refl)|].
+      assert (Eg : dgroup_extra inp (c_stop pc) x = dgroup_extra inp (c_stop po) x)
+        by (rewrite !dgroup_extra_inert by exact (Hdg eq_refl); reflexivity).
+      exact (proj2 (nc_start_of_arrival inp vv pc po x Eg Ea)).
     - apply Forall_forall. auto.
     - lia.
   Qed.
+
+  (* the estimate of the code as it is now: sound, no side condition *)
+  Lemma est_max_wait_stop_sound :
+    est_max_wait_stop inp s mv = false ->
+    Forall (cl_max_wait_stop inp vv) (cells_from inp vv PC NSUF).
+  Proof. intros H. apply (est_max_wait_stop_gen_sound true); [discriminate|exact H]. Qed.
 
   (* ---------------------------------------------------------------- *)
   (* max wait per vehicle                                             *)
@@ -1117,14 +1346,15 @@ Section Ctx.
      downstream, and the old cells passed *)
   Lemma wait_vehicle_break (pc po : cell) (x : nat) (rest : list nat) :
     c_arrival (next_cell inp vv pc x) = c_arrival (next_cell inp vv po x) ->
+    c_end (next_cell inp vv pc x) = c_end (next_cell inp vv po x) ->
     c_wait_acc pc <= c_wait_acc po ->
     Forall (cell_passes inp vv)
            (next_cell inp vv po x :: cells_from inp vv (next_cell inp vv po x) rest) ->
     Forall (cl_max_wait_vehicle inp vv)
            (next_cell inp vv pc x :: cells_from inp vv (next_cell inp vv pc x) rest).
   Proof.
-    intros Ea Hacc Hok.
-    destruct (nc_start_of_arrival inp vv pc po x Ea) as (Es & Ee).
+    intros Ea Ee Hacc Hok.
+    pose proof (nc_start_eq inp vv pc po x Ea) as Es.
     assert (Ht : teq (next_cell inp vv pc x) (next_cell inp vv po x)).
     { unfold teq. rewrite !nc_stop. auto. }
     set (d := c_wait_acc (next_cell inp vv pc x) - c_wait_acc (next_cell inp vv po x)).
@@ -1140,35 +1370,49 @@ Section Ctx.
     intros Hh w' Ew'. specialize (H6 Hh w' Ew'). lia.
   Qed.
 
-  (* the estimate of the code as it is now (the break is guarded by "the wait
-     accumulated so far is not larger than the cached one"): sound, no side condition *)
-  Lemma est_max_wait_vehicle_sound :
-    est_max_wait_vehicle inp s mv = false ->
+  (* both versions of the guarded estimate (the break is guarded by "the wait
+     accumulated so far is not larger than the cached one") *)
+  Lemma est_max_wait_vehicle_gen_sound (check_end : bool) :
+    (check_end = false -> dgroups_inert inp) ->
+    est_max_wait_vehicle_gen check_end inp s mv = false ->
     Forall (cl_max_wait_vehicle inp vv) (cells_from inp vv PC NSUF).
   Proof.
-    intros H.
-    cbv beta zeta iota delta [est_max_wait_vehicle hypo_of h_prev h_suffix h_old] in H.
+    intros Hdg H.
+    cbv beta zeta iota delta [est_max_wait_vehicle_gen hypo_of h_prev h_suffix h_old] in H.
     destruct (iv_max_wait (get_vehicle inp vv)) as [w|] eqn:Ew.
     2:{ apply Forall_forall. intros c _ _ w' E. congruence. }
-    refine (ctx_sim_wait _ _ 0 (cl_max_wait_vehicle inp vv)
+    refine (ctx_sim_wait check_end _ _ 0 (cl_max_wait_vehicle inp vv)
               (fun _ _ => True) (fun _ => True) _ _ _ _ _ _ I _ H).
     - intros c Hc _ w' Ew'. cbv beta in Hc. rewrite Ew in Ew'. injection Ew' as <-.
       apply Z.ltb_ge in Hc. lia.
     - auto.
     - auto.
-    - intros pc po x rest _ _ _ Ea Hg Hpa Hok. cbv beta in Hg. apply Z.leb_le in Hg.
-      apply (wait_vehicle_break pc po x rest Ea); [lia|exact Hok].
+    - intros pc po x rest _ _ _ Ea Ee Hg Hpa Hok. cbv beta in Hg. apply Z.leb_le in Hg.
+      apply (wait_vehicle_break pc po x rest Ea); [|lia|exact Hok].
+      destruct check_end; [exact (Ee eq_refl)|].
+      assert (Eg : dgroup_extra inp (c_stop pc) x = dgroup_extra inp (c_stop po) x)
+        by (rewrite !dgroup_extra_inert by exact (Hdg eq_refl); reflexivity).
+      exact (proj2 (nc_start_of_arrival inp vv pc po x Eg Ea)).
     - apply Forall_forall. auto.
     - lia.
   Qed.
 
-  (* the estimate before the fix: sound only for metric durations *)
+  (* the estimate of the code as it is now: sound, no side condition *)
+  Lemma est_max_wait_vehicle_sound :
+    est_max_wait_vehicle inp s mv = false ->
+    Forall (cl_max_wait_vehicle inp vv) (cells_from inp vv PC NSUF).
+  Proof. intros H. apply (est_max_wait_vehicle_gen_sound true); [discriminate|exact H]. Qed.
+
+  (* the estimate before the fix of the guard: sound only for metric travel
+     durations and non-negative stop and group durations.  Invariant: reaching
+     any stop z and paying its group duration takes the new chain at least as
+     much busy time (travel + service) as the old one. *)
   Lemma est_max_wait_vehicle_prefix_sound :
-    durations_metric inp -> stop_durations_nonneg inp ->
+    durations_metric inp -> stop_durations_nonneg inp -> dgroups_nonneg inp ->
     est_max_wait_vehicle_prefix inp s mv = false ->
     Forall (cl_max_wait_vehicle inp vv) (cells_from inp vv PC NSUF).
   Proof.
-    intros Hmet Hdur H.
+    intros Hmet Hdur Hdg H.
     cbv beta zeta iota delta [est_max_wait_vehicle_prefix hypo_of h_prev h_suffix h_old] in H.
     destruct (iv_max_wait (get_vehicle inp vv)) as [w|] eqn:Ew.
     2:{ apply Forall_forall. intros c _ _ w' E. congruence. }
@@ -1187,23 +1431,27 @@ Section Ctx.
     set (J := fun pc po : cell =>
                 (c_stop pc < N)%nat /\ (c_stop po < N)%nat /\
                 forall z, (z < N)%nat ->
-                  busy po + travel_duration inp (c_stop po) z
-                  <= busy pc + travel_duration inp (c_stop pc) z).
-    refine (ctx_sim_wait _ _ 0 (cl_max_wait_vehicle inp vv)
+                  busy po + travel_duration inp (c_stop po) z + dgroup_extra inp (c_stop po) z
+                  <= busy pc + travel_duration inp (c_stop pc) z + dgroup_extra inp (c_stop pc) z).
+    refine (ctx_sim_wait true _ _ 0 (cl_max_wait_vehicle inp vv)
               J (fun x => (x < N)%nat) _ _ _ _ _ ctx_dom _ _ H).
     - intros c Hc _ w' Ew'. cbv beta in Hc. rewrite Ew in Ew'. injection Ew' as <-.
       apply Z.ltb_ge in Hc. lia.
     - (* an inserted stop: the new chain gets later *)
       intros pc po x Hx _ (J1 & J2 & J3). unfold J. rewrite nc_stop.
-      split; [exact Hx|]. split; [exact J2|]. intros z Hz. rewrite busy_step.
+      split; [exact Hx|]. split; [exact J2|]. intros z Hz.
+      rewrite busy_step. unfold stop_duration_at.
       pose proof (J3 z Hz). pose proof (Hmet (c_stop pc) x z J1 Hx Hz).
-      pose proof (stop_duration_nonneg inp x Hdur). lia.
+      pose proof (stop_duration_nonneg inp x Hdur).
+      pose proof (dgroup_extra_triangle inp (c_stop pc) x z Hdg). lia.
     - intros pc po x Hx (J1 & J2 & J3). unfold J. rewrite !nc_stop.
-      split; [exact Hx|]. split; [exact Hx|]. intros z Hz. rewrite !busy_step.
+      split; [exact Hx|]. split; [exact Hx|]. intros z Hz.
+      rewrite !busy_step. unfold stop_duration_at.
       pose proof (J3 x Hx). lia.
-    - (* the break: equal arrival means the new chain has waited no more *)
-      intros pc po x rest (J1 & J2 & J3) Hx _ Ea _ _ Hok.
-      apply (wait_vehicle_break pc po x rest Ea); [|exact Hok].
+    - (* the break: equal arrival and equal end mean the new chain has waited no more *)
+      intros pc po x rest (J1 & J2 & J3) Hx _ Ea Ee _ _ Hok. specialize (Ee eq_refl).
+      apply (wait_vehicle_break pc po x rest Ea Ee); [|exact Hok].
+      pose proof (nc_extra_of_end inp vv pc po x Ea Ee) as Eg.
       pose proof (J3 x Hx) as Hj. unfold busy in Hj. rewrite !nc_arrival, !nc_travel in Ea. lia.
     - unfold J. split; [exact HPCdom|]. split; [exact HPCdom|]. intros z _. lia.
     - lia.
@@ -1443,20 +1691,21 @@ Section Ctx.
   Proof.
     intros Hu Hdn Hns Hev. unfold estimate_violated in Hev.
     apply (all_new_cells_pass_gen (est_max_wait_vehicle inp s mv) Hu Hdn Hns); [|exact Hev].
-    intros _ E. exact (est_max_wait_vehicle_sound E).
+    intros Hh E. exact (est_max_wait_vehicle_sound E).
   Qed.
 
   (* the estimates before the fix *)
   Lemma all_new_cells_pass_prefix :
     in_user inp = [] -> distances_nonneg inp -> (exists s0, new_solution inp = Some s0) ->
-    (has_max_wait_vehicle inp = false \/ (durations_metric inp /\ stop_durations_nonneg inp)) ->
+    (has_max_wait_vehicle inp = false \/
+     (durations_metric inp /\ stop_durations_nonneg inp /\ dgroups_nonneg inp)) ->
     estimate_violated_prefix inp s mv = false ->
     Forall (cell_passes inp vv) (cells_from inp vv PC NSUF).
   Proof.
     intros Hu Hdn Hns Hside Hev. unfold estimate_violated_prefix in Hev.
     apply (all_new_cells_pass_gen (est_max_wait_vehicle_prefix inp s mv) Hu Hdn Hns); [|exact Hev].
-    intros Hh E. destruct Hside as [Hs|(Hm & Hd)]; [congruence|].
-    exact (est_max_wait_vehicle_prefix_sound Hm Hd E).
+    intros Hh E. destruct Hside as [Hs|(Hm & Hd & Hg)]; [congruence|].
+    exact (est_max_wait_vehicle_prefix_sound Hm Hd Hg E).
   Qed.
 
   (* if every new cell passes, Execute succeeds *)
@@ -1483,7 +1732,8 @@ Definition matrices_nonneg (inp : input) : Prop :=
   Forall (Forall (fun z => 0 <= z)) (in_duration inp) /\ distances_nonneg inp.
 
 Definition wait_vehicle_side (inp : input) : Prop :=
-  has_max_wait_vehicle inp = false \/ (durations_metric inp /\ stop_durations_nonneg inp).
+  has_max_wait_vehicle inp = false \/
+  (durations_metric inp /\ stop_durations_nonneg inp /\ dgroups_nonneg inp).
 
 (* the property, for the estimates of the code as it is now (after the fix of
    the vehicle max-wait estimate).  Of [matrices_nonneg] only the distance part
@@ -1566,6 +1816,25 @@ Definition durations_metric_b (inp : input) : bool :=
   forallb (fun a => forallb (fun b => forallb (fun c =>
     travel_duration inp a c <=? travel_duration inp a b + travel_duration inp b c) ids) ids) ids.
 
+Definition dgroups_inert_b (inp : input) : bool :=
+  o_dis_dgroups (in_opts inp) || forallb (fun g => snd g =? 0) (in_dgroups inp).
+Definition dgroups_nonneg_b (inp : input) : bool :=
+  o_dis_dgroups (in_opts inp) || forallb (fun g => 0 <=? snd g) (in_dgroups inp).
+
+Lemma dgroups_inert_b_ok (inp : input) : dgroups_inert_b inp = true -> dgroups_inert inp.
+Proof.
+  unfold dgroups_inert_b, dgroups_inert. intros H. apply orb_true_iff in H.
+  destruct H as [H|H]; [left; exact H|right].
+  rewrite forallb_forall in H. apply Forall_forall. intros g Hg. apply Z.eqb_eq. exact (H g Hg).
+Qed.
+
+Lemma dgroups_nonneg_b_ok (inp : input) : dgroups_nonneg_b inp = true -> dgroups_nonneg inp.
+Proof.
+  unfold dgroups_nonneg_b, dgroups_nonneg. intros H. apply orb_true_iff in H.
+  destruct H as [H|H]; [left; exact H|right].
+  rewrite forallb_forall in H. apply Forall_forall. intros g Hg. apply Z.leb_le. exact (H g Hg).
+Qed.
+
 Lemma distances_nonneg_b_ok (inp : input) : distances_nonneg_b inp = true -> distances_nonneg inp.
 Proof.
   unfold distances_nonneg_b, distances_nonneg. intros H. rewrite forallb_forall in H.
@@ -1641,10 +1910,32 @@ Section PerConstraint.
 
   (* before the fix *)
   Theorem C09_prefix_est_max_wait_vehicle_sound_partial_proof :
-    durations_metric inp -> stop_durations_nonneg inp ->
+    durations_metric inp -> stop_durations_nonneg inp -> dgroups_nonneg inp ->
     est_max_wait_vehicle_prefix inp s mv = false ->
     Forall (cl_max_wait_vehicle inp (mv_vehicle mv)) (new_cells inp s mv).
   Proof. intros; eapply est_max_wait_vehicle_prefix_sound; eassumption. Qed.
+
+  (* the estimates BEFORE the repair of the duration-group defect (arrival only):
+     sound when the groups are inert *)
+  Theorem C09_arrival_only_est_max_wait_stop_sound_proof :
+    dgroups_inert inp ->
+    est_max_wait_stop_arrival_only inp s mv = false ->
+    Forall (cl_max_wait_stop inp (mv_vehicle mv)) (new_cells inp s mv).
+  Proof.
+    intros Hdg H. unfold est_max_wait_stop_arrival_only in H.
+    eapply est_max_wait_stop_gen_sound with (check_end := false); try eassumption.
+    intros _. exact Hdg.
+  Qed.
+
+  Theorem C09_arrival_only_est_max_wait_vehicle_sound_proof :
+    dgroups_inert inp ->
+    est_max_wait_vehicle_arrival_only inp s mv = false ->
+    Forall (cl_max_wait_vehicle inp (mv_vehicle mv)) (new_cells inp s mv).
+  Proof.
+    intros Hdg H. unfold est_max_wait_vehicle_arrival_only in H.
+    eapply est_max_wait_vehicle_gen_sound with (check_end := false); try eassumption.
+    intros _. exact Hdg.
+  Qed.
 
   (* and the exact check is nothing but the six clauses *)
   Theorem C09_new_cells_pass_proof :
@@ -1660,6 +1951,36 @@ Section PerConstraint.
     eapply all_new_cells_pass; eassumption.
   Qed.
 End PerConstraint.
+
+(* without (active) duration groups the repair changes nothing: the estimates
+   that compare the arrival only and the repaired ones are the same functions
+   on every state the engine can reach; so are the gates built on them (for
+   these the unit need not be unplanned: a planned unit is refused by both) *)
+Theorem C09_check_end_equivalent_without_groups_proof : forall inp s mv,
+  wf_input inp -> reachable inp s -> move_ok inp s mv -> dgroups_inert inp ->
+  (unit_planned inp s (mv_unit mv) = false ->
+   est_max_wait_stop_arrival_only inp s mv = est_max_wait_stop inp s mv /\
+   est_max_wait_vehicle_arrival_only inp s mv = est_max_wait_vehicle inp s mv /\
+   estimate_violated_arrival_only inp s mv = estimate_violated inp s mv) /\
+  move_executable_arrival_only inp s mv = move_executable inp s mv /\
+  exec_checked_arrival_only inp s mv = exec_checked inp s mv.
+Proof.
+  intros inp s mv Hwf Hreach Hmv Hdg.
+  pose proof (reachable_invT inp s Hwf Hreach) as HI.
+  assert (Hest : unit_planned inp s (mv_unit mv) = false ->
+     est_max_wait_stop_arrival_only inp s mv = est_max_wait_stop inp s mv /\
+     est_max_wait_vehicle_arrival_only inp s mv = est_max_wait_vehicle inp s mv /\
+     estimate_violated_arrival_only inp s mv = estimate_violated inp s mv).
+  { intros Hnp. destruct (est_max_wait_check_end_irrel inp s mv Hwf HI Hmv Hnp Hdg) as (E1 & E2).
+    split; [exact E1|]. split; [exact E2|].
+    unfold estimate_violated_arrival_only, estimate_violated. rewrite E1, E2. reflexivity. }
+  assert (Hme : move_executable_arrival_only inp s mv = move_executable inp s mv).
+  { unfold move_executable_arrival_only, move_executable.
+    destruct (unit_planned inp s (mv_unit mv)) eqn:Hnp; [reflexivity|].
+    destruct (Hest eq_refl) as (_ & _ & E). rewrite E. reflexivity. }
+  split; [exact Hest|]. split; [exact Hme|].
+  unfold exec_checked_arrival_only, exec_checked. rewrite Hme. reflexivity.
+Qed.
 
 (* max stops and attributes have an estimate but NO exact check: whatever their
    estimates answer, the exact check of a cell does not depend on them *)
@@ -1691,7 +2012,7 @@ Qed.
    Exact check: Y still waits 600, accumulated wait 3000 > 2400: the move is
    rejected by the vehicle max-wait constraint and rolled back. *)
 Definition w_opts : options :=
-  mkOptions false false false false false false false false false false false 0 1 0 1.
+  mkOptions false false false false false false false false false false false 0 1 0 1 false.
 Definition w_X : istop := mkIStop [] 0 [(3000, 100020)] None 10 [].
 Definition w_Y : istop := mkIStop [] 0 [(6600, 100020)] None 10 [].
 Definition w_veh : ivehicle :=
@@ -1699,7 +2020,7 @@ Definition w_veh : ivehicle :=
 Definition w_mat : list (list Z) :=
   [[0; 3000; 600; 600]; [3000; 0; 6000; 0]; [600; 6000; 0; 0]; [600; 0; 0; 0]].
 Definition w_inp : input :=
-  mkInput [] [w_X; w_Y] [w_veh] [mkIUnit [0%nat] []; mkIUnit [1%nat] []] w_mat w_mat 0 w_opts.
+  mkInput [] [w_X; w_Y] [w_veh] [mkIUnit [0%nat] []; mkIUnit [1%nat] []] w_mat w_mat 0 w_opts [].
 Definition w_dummy : state := mkState [] [] [] [] [] 0.
 Definition w_s0 : state :=
   Eval vm_compute in match new_solution w_inp with Some s => s | None => w_dummy end.
@@ -1710,7 +2031,7 @@ Definition w_s2 : state := Eval vm_compute in fst (exec_checked_prefix w_inp w_s
 
 Lemma w_wf : wf_input w_inp.
 Proof.
-  split; [|split].
+  split; [|split; [|split; [|exact (Forall_nil _)]]].
   - vm_compute. repeat (constructor; [simpl; lia|]). constructor.
   - intros x. vm_compute. lia.
   - intros u Hu. vm_compute in Hu. destruct Hu as [<-|[<-|[]]]; discriminate.
@@ -1820,12 +2141,12 @@ Proof. repeat split; vm_compute; reflexivity. Qed.
 
 (* the fix only makes the estimate stricter: whatever the old estimate
    rejected the new one rejects *)
-Lemma sim_wait_guard_mono (inp : input) (us : list nat) (old : list cell)
+Lemma sim_wait_guard_mono (ce : bool) (inp : input) (us : list nat) (old : list cell)
       (violated : Z -> Z -> nat -> bool) (g1 g2 : Z -> nat -> bool) :
   (forall a x, g2 a x = true -> g1 a x = true) ->
   forall stops endv prev to_place acc,
-    sim_wait inp us old endv prev stops to_place acc violated g1 = true ->
-    sim_wait inp us old endv prev stops to_place acc violated g2 = true.
+    sim_wait ce inp us old endv prev stops to_place acc violated g1 = true ->
+    sim_wait ce inp us old endv prev stops to_place acc violated g2 = true.
 Proof.
   intros Hg. induction stops as [|x rest IH]; intros endv prev to_place acc H; cbn [sim_wait] in *;
     [discriminate|].
@@ -1840,7 +2161,7 @@ Qed.
 Theorem C09_fix_only_stricter_proof : forall inp s mv,
   est_max_wait_vehicle_prefix inp s mv = true -> est_max_wait_vehicle inp s mv = true.
 Proof.
-  intros inp s mv. unfold est_max_wait_vehicle_prefix, est_max_wait_vehicle. cbv zeta.
+  intros inp s mv. unfold est_max_wait_vehicle_prefix, est_max_wait_vehicle, est_max_wait_vehicle_gen. cbv zeta.
   destruct (iv_max_wait (get_vehicle inp (mv_vehicle mv))); [|discriminate].
   apply sim_wait_guard_mono. reflexivity.
 Qed.
@@ -1850,6 +2171,86 @@ Example w_not_metric : ~ durations_metric w_inp.
 Proof.
   intros H. specialize (H 2%nat 0%nat 1%nat). vm_compute in H.
   apply H; [lia|lia|lia|reflexivity].
+Qed.
+
+(* The partial theorem for the estimate before the fix also asks for group
+   durations >= 0 (dgroups_nonneg); a negative one is as bad as a negative
+   stop duration.  U (0, window opens 300) is alone in a duration group of
+   -300 s, Y (1) opens at 900, vehicle max wait 500; first, last and U are at
+   one place, Y is 600 s away (metric).  Route first Y last: Y is reached at
+   600 and waits 300.  Move: U in front of Y.  U waits 300 and ends at
+   300 + (-300) = 0, Y is reached at 600 and ends at 900 as before: the
+   unguarded estimate breaks; the accumulated wait at Y is 600 > 500. *)
+Definition ng_mat : list (list Z) :=
+  [[0; 600; 0; 0]; [600; 0; 600; 600]; [0; 600; 0; 0]; [0; 600; 0; 0]].
+Definition ng_inp : input :=
+  mkInput [] [mkIStop [] 0 [(300, 100020)] None 10 []; mkIStop [] 0 [(900, 100020)] None 10 []]
+          [mkIVehicle None [] 0 None None None None (Some 500) [] 0 true true]
+          [mkIUnit [0%nat] []; mkIUnit [1%nat] []] ng_mat ng_mat 0 w_opts [([0%nat], -300)].
+Definition ng_s0 : state :=
+  Eval vm_compute in match new_solution ng_inp with Some s => s | None => w_dummy end.
+Definition ng_s1 : state := Eval vm_compute in fst (exec_move ng_inp ng_s0 w_mvY).
+
+Lemma ng_wf : wf_input ng_inp.
+Proof.
+  split; [|split; [|split]].
+  - vm_compute. repeat (constructor; [simpl; lia|]). constructor.
+  - intros x. vm_compute. lia.
+  - intros u Hu. vm_compute in Hu. destruct Hu as [<-|[<-|[]]]; discriminate.
+  - vm_compute. repeat constructor.
+Qed.
+
+Lemma ng_mvY_ok : move_ok ng_inp ng_s0 w_mvY.
+Proof.
+  unfold move_ok. vm_compute.
+  split; [lia|]. split; [lia|]. split; [apply Permutation_refl|]. split; [discriminate|].
+  split; repeat constructor.
+Qed.
+
+Lemma ng_mvX_ok : move_ok ng_inp ng_s1 w_mvX.
+Proof.
+  unfold move_ok. vm_compute.
+  split; [lia|]. split; [lia|]. split; [apply Permutation_refl|]. split; [discriminate|].
+  split; repeat constructor.
+Qed.
+
+Lemma ng_reachable : reachable ng_inp ng_s1.
+Proof.
+  exists ng_s0, [OpPlan w_mvY]. split; [vm_compute; reflexivity|]. split.
+  - cbn [fresh op_ok]. split; [exact ng_mvY_ok|exact I].
+  - cbn [run step]. replace (exec_move ng_inp ng_s0 w_mvY) with (ng_s1, Done) by (vm_compute; reflexivity).
+    cbn [fst]. right. left. reflexivity.
+Qed.
+
+Theorem prefix_negative_group_duration_refuted :
+  exists inp s mv,
+    wf_input inp /\ input_windows_ok inp /\ matrices_nonneg inp /\ stop_durations_nonneg inp /\
+    durations_metric inp /\ (forall u, In u (in_user inp) -> False) /\
+    reachable inp s /\ move_ok inp s mv /\
+    has_max_wait_vehicle inp = true /\ est_max_wait_vehicle_prefix inp s mv = false /\
+    move_executable_prefix inp s mv = true /\
+    snd (exec_checked_prefix inp s mv) = Rejected KMaxWaitVehicle /\
+    ~ dgroups_nonneg inp /\
+    (* the guarded estimate of the code as it is now refuses the move *)
+    est_max_wait_vehicle inp s mv = true /\ move_executable inp s mv = false.
+Proof.
+  exists ng_inp, ng_s1, w_mvX.
+  split; [exact ng_wf|].
+  split; [unfold input_windows_ok, ng_inp; cbn [in_stops]; repeat constructor; cbn; try lia; reflexivity|].
+  split; [split; [|apply distances_nonneg_b_ok; vm_compute; reflexivity]|].
+  { unfold ng_inp. cbn [in_duration]. unfold ng_mat. repeat constructor; lia. }
+  split; [apply stop_durations_nonneg_b_ok; vm_compute; reflexivity|].
+  split; [apply durations_metric_b_ok; vm_compute; reflexivity|].
+  split; [intros u Hu; exact Hu|].
+  split; [exact ng_reachable|]. split; [exact ng_mvX_ok|].
+  split; [vm_compute; reflexivity|]. split; [vm_compute; reflexivity|].
+  split; [vm_compute; reflexivity|]. split; [vm_compute; reflexivity|].
+  split.
+  { intros [H|H].
+    - vm_compute in H. discriminate.
+    - unfold ng_inp in H. cbn [in_dgroups] in H. inversion H as [|? ? H1 _]; subst.
+      cbn [snd] in H1. lia. }
+  split; vm_compute; reflexivity.
 Qed.
 
 (* ================================================================== *)
@@ -1890,7 +2291,7 @@ Qed.
 Definition w3_inp : input :=
   mkInput [] [w_X; w_Y]
           [mkIVehicle None [] 0 None None None None (Some 3000) [] 0 true true]
-          [mkIUnit [0%nat] []; mkIUnit [1%nat] []] w_mat w_mat 0 w_opts.
+          [mkIUnit [0%nat] []; mkIUnit [1%nat] []] w_mat w_mat 0 w_opts [].
 Definition w3_s0 : state :=
   Eval vm_compute in match new_solution w3_inp with Some s => s | None => w_dummy end.
 Definition w3_s1 : state := Eval vm_compute in fst (exec_move w3_inp w3_s0 w_mvY).
@@ -1929,7 +2330,7 @@ Definition n_dist : list (list Z) :=
   [[0; 5; 0; 0; 0]; [0; 0; 90; 0; 0]; [0; 0; 0; 0; -50]; [15; 10; 0; 0; 0]; [0; 0; 0; 0; 0]].
 Definition n_inp : input :=
   mkInput [] [n_st; n_st; n_st] [n_veh] [mkIUnit [0%nat] []; mkIUnit [1%nat; 2%nat] []]
-          n_dur n_dist 0 w_opts.
+          n_dur n_dist 0 w_opts [].
 Definition n_s0 : state :=
   Eval vm_compute in match new_solution n_inp with Some s => s | None => w_dummy end.
 Definition n_mvYZ : move := mkMove 1 0 [(1, 1); (2, 1)]%nat.
@@ -1950,4 +2351,278 @@ Proof.
   inversion H3 as [|? ? _ H4]; subst. inversion H4 as [|? ? _ H5]; subst.
   inversion H5 as [|? ? _ H6]; subst. inversion H6 as [|? ? _ H7]; subst.
   inversion H7 as [|? ? H8 _]; subst. lia.
+Qed.
+
+(* ================================================================== *)
+(* 8. Duration groups: the estimates BEFORE the repair (the early break  *)
+(*    compared the arrival only) were not sound                         *)
+(* ================================================================== *)
+
+(* Stops A (0), X (1), Z (2), U (3), all at one place (every travel duration
+   is 0: metric), no own durations.  A and X form a duration group of 600 s.
+   Z has the windows [60, 900) and [3600, 7200) and a max wait of 60 s.  One
+   vehicle (first stop 4, last stop 5), start time 0.
+   Route before the move: first, A, X, Z, last.  A pays the group duration
+   (0 -> 600), X comes from A and does not (arrival 600, end 600), Z is
+   reached at 600, inside its first window: no wait.
+   Move: U between A and X.  U leaves at 600, X is reached at 600: the
+   arrival at X is UNCHANGED and every stop of the unit is placed, so the
+   max-wait estimates that compare the arrival only (the code before the
+   repair) stop there and answer "not violated".  But X now comes from U,
+   which is not in its group: it pays the 600 s again and ends at 1200; Z is
+   reached at 1200, between its windows, and waits 2400 s > 60 s: the exact
+   check rejects the move (and it is rolled back).  The repaired estimates
+   also compare the END of X (1200 against the cached 600), do not stop, go
+   on to Z and answer "violated". *)
+Definition dg_opts : options :=
+  mkOptions false false false false false false false false false false false 0 1 0 1 false.
+Definition dg_plain : istop := mkIStop [] 0 [] None 10 [].
+Definition dg_Z : istop := mkIStop [] 0 [(60, 900); (3600, 7200)] (Some 60) 10 [].
+Definition dg_veh : ivehicle := mkIVehicle None [] 0 None None None None None [] 0 true true.
+Definition dg_mat : list (list Z) :=
+  [[0; 0; 0; 0; 0; 0]; [0; 0; 0; 0; 0; 0]; [0; 0; 0; 0; 0; 0];
+   [0; 0; 0; 0; 0; 0]; [0; 0; 0; 0; 0; 0]; [0; 0; 0; 0; 0; 0]].
+Definition dg_inp : input :=
+  mkInput [] [dg_plain; dg_plain; dg_Z; dg_plain] [dg_veh]
+          [mkIUnit [0; 1; 2]%nat []; mkIUnit [3%nat] []]
+          dg_mat dg_mat 0 dg_opts [([0; 1]%nat, 600)].
+Definition dg_s0 : state :=
+  Eval vm_compute in match new_solution dg_inp with Some s => s | None => w_dummy end.
+Definition dg_mvAXZ : move := mkMove 0 0 [(0, 1); (1, 1); (2, 1)]%nat.
+Definition dg_mvU : move := mkMove 1 0 [(3, 2)]%nat.
+Definition dg_s1 : state := Eval vm_compute in fst (exec_move dg_inp dg_s0 dg_mvAXZ).
+Definition dg_s2 : state := Eval vm_compute in fst (exec_checked_arrival_only dg_inp dg_s1 dg_mvU).
+
+Lemma dg_wf : wf_input dg_inp.
+Proof.
+  split; [|split; [|split]].
+  - vm_compute. repeat (constructor; [simpl; lia|]). constructor.
+  - intros x. vm_compute. lia.
+  - intros u Hu. vm_compute in Hu. destruct Hu as [<-|[<-|[]]]; discriminate.
+  - vm_compute. repeat constructor.
+Qed.
+
+Lemma dg_new : new_solution dg_inp = Some dg_s0.
+Proof. vm_compute. reflexivity. Qed.
+
+Lemma dg_mvAXZ_ok : move_ok dg_inp dg_s0 dg_mvAXZ.
+Proof.
+  unfold move_ok. vm_compute.
+  split; [lia|]. split; [lia|]. split; [apply Permutation_refl|]. split; [discriminate|].
+  split; repeat constructor.
+Qed.
+
+Lemma dg_mvAXZ_done : exec_move dg_inp dg_s0 dg_mvAXZ = (dg_s1, Done).
+Proof. vm_compute. reflexivity. Qed.
+
+Lemma dg_mvU_ok : move_ok dg_inp dg_s1 dg_mvU.
+Proof.
+  unfold move_ok. vm_compute.
+  split; [lia|]. split; [lia|]. split; [apply Permutation_refl|]. split; [discriminate|].
+  split; repeat constructor.
+Qed.
+
+Lemma dg_reachable : reachable dg_inp dg_s1.
+Proof.
+  exists dg_s0, [OpPlan dg_mvAXZ]. split; [exact dg_new|]. split.
+  - cbn [fresh op_ok]. split; [exact dg_mvAXZ_ok|exact I].
+  - cbn [run step]. rewrite dg_mvAXZ_done. cbn [fst]. right. left. reflexivity.
+Qed.
+
+Example dg_route_before :
+  route_stops (get_route dg_s1 0) = [4; 0; 1; 2; 5]%nat /\
+  map c_arrival (get_route dg_s1 0) = [0; 0; 600; 600; 600] /\
+  map c_start (get_route dg_s1 0) = [0; 0; 600; 600; 600] /\
+  map c_end (get_route dg_s1 0) = [0; 600; 600; 600; 600].
+Proof. vm_compute. repeat split. Qed.
+
+Example dg_route_after :
+  map c_arrival (from_scratch dg_inp 0 [4; 0; 3; 1; 2; 5]%nat) = [0; 0; 600; 600; 1200; 3600] /\
+  map c_start (from_scratch dg_inp 0 [4; 0; 3; 1; 2; 5]%nat) = [0; 0; 600; 600; 3600; 3600] /\
+  map c_end (from_scratch dg_inp 0 [4; 0; 3; 1; 2; 5]%nat) = [0; 600; 600; 1200; 3600; 3600].
+Proof. vm_compute. repeat split. Qed.
+
+(* every hypothesis of C09_executable_executes holds, travel durations are
+   metric, nothing is negative, windows are well formed: BEFORE THE REPAIR the
+   move was offered as executable and Execute rejected it *)
+Theorem dg_break_refuted :
+  exists inp s mv s' r,
+    wf_input inp /\ input_windows_ok inp /\ matrices_nonneg inp /\ stop_durations_nonneg inp /\
+    Forall (fun g => 0 <= snd g) (in_dgroups inp) /\ durations_metric inp /\
+    (forall u, In u (in_user inp) -> False) /\
+    reachable inp s /\ move_ok inp s mv /\
+    has_max_wait_stop inp = true /\ est_max_wait_stop_arrival_only inp s mv = false /\
+    move_executable_arrival_only inp s mv = true /\
+    exec_checked_arrival_only inp s mv = (s', r) /\ r = Rejected KMaxWaitStop /\ same_obs s' s /\
+    exec_move inp s mv = (s', r) /\
+    ~ dgroups_inert inp.
+Proof.
+  exists dg_inp, dg_s1, dg_mvU, dg_s2, (Rejected KMaxWaitStop).
+  split; [exact dg_wf|].
+  split; [unfold input_windows_ok, dg_inp; cbn [in_stops]; repeat constructor; cbn; try lia; reflexivity|].
+  split; [split; [|apply distances_nonneg_b_ok; vm_compute; reflexivity]|].
+  { unfold dg_inp. cbn [in_duration]. unfold dg_mat. repeat constructor; lia. }
+  split; [apply stop_durations_nonneg_b_ok; vm_compute; reflexivity|].
+  split; [vm_compute; repeat constructor; discriminate|].
+  split; [apply durations_metric_b_ok; vm_compute; reflexivity|].
+  split; [intros u Hu; exact Hu|].
+  split; [exact dg_reachable|]. split; [exact dg_mvU_ok|].
+  split; [vm_compute; reflexivity|]. split; [vm_compute; reflexivity|].
+  split; [vm_compute; reflexivity|]. split; [vm_compute; reflexivity|].
+  split; [reflexivity|].
+  split; [vm_compute; repeat split; intros H; exact H|].
+  split; [vm_compute; reflexivity|].
+  intros [H|H].
+  - vm_compute in H. discriminate.
+  - unfold dg_inp in H. cbn [in_dgroups] in H. inversion H as [|? ? H1 _]; subst.
+    cbn [snd] in H1. discriminate.
+Qed.
+
+(* the vehicle max-wait estimate (with its guard) stopped at the same place:
+   the wait accumulated in front of X did not grow.  The same input with a
+   vehicle max wait of 60 s instead of Z's *)
+Definition dgv_inp : input :=
+  mkInput [] [dg_plain; dg_plain; mkIStop [] 0 [(60, 900); (3600, 7200)] None 10 []; dg_plain]
+          [mkIVehicle None [] 0 None None None None (Some 60) [] 0 true true]
+          [mkIUnit [0; 1; 2]%nat []; mkIUnit [3%nat] []]
+          dg_mat dg_mat 0 dg_opts [([0; 1]%nat, 600)].
+Definition dgv_s0 : state :=
+  Eval vm_compute in match new_solution dgv_inp with Some s => s | None => w_dummy end.
+Definition dgv_s1 : state := Eval vm_compute in fst (exec_move dgv_inp dgv_s0 dg_mvAXZ).
+Definition dgv_s2 : state := Eval vm_compute in fst (exec_checked_arrival_only dgv_inp dgv_s1 dg_mvU).
+
+Lemma dgv_wf : wf_input dgv_inp.
+Proof.
+  split; [|split; [|split]].
+  - vm_compute. repeat (constructor; [simpl; lia|]). constructor.
+  - intros x. vm_compute. lia.
+  - intros u Hu. vm_compute in Hu. destruct Hu as [<-|[<-|[]]]; discriminate.
+  - vm_compute. repeat constructor.
+Qed.
+
+Lemma dgv_new : new_solution dgv_inp = Some dgv_s0.
+Proof. vm_compute. reflexivity. Qed.
+
+Lemma dgv_mvAXZ_ok : move_ok dgv_inp dgv_s0 dg_mvAXZ.
+Proof.
+  unfold move_ok. vm_compute.
+  split; [lia|]. split; [lia|]. split; [apply Permutation_refl|]. split; [discriminate|].
+  split; repeat constructor.
+Qed.
+
+Lemma dgv_mvAXZ_done : exec_move dgv_inp dgv_s0 dg_mvAXZ = (dgv_s1, Done).
+Proof. vm_compute. reflexivity. Qed.
+
+Lemma dgv_mvU_ok : move_ok dgv_inp dgv_s1 dg_mvU.
+Proof.
+  unfold move_ok. vm_compute.
+  split; [lia|]. split; [lia|]. split; [apply Permutation_refl|]. split; [discriminate|].
+  split; repeat constructor.
+Qed.
+
+Lemma dgv_reachable : reachable dgv_inp dgv_s1.
+Proof.
+  exists dgv_s0, [OpPlan dg_mvAXZ]. split; [exact dgv_new|]. split.
+  - cbn [fresh op_ok]. split; [exact dgv_mvAXZ_ok|exact I].
+  - cbn [run step]. rewrite dgv_mvAXZ_done. cbn [fst]. right. left. reflexivity.
+Qed.
+
+Theorem dg_break_refuted_vehicle :
+  exists inp s mv s' r,
+    wf_input inp /\ input_windows_ok inp /\ matrices_nonneg inp /\ stop_durations_nonneg inp /\
+    Forall (fun g => 0 <= snd g) (in_dgroups inp) /\ durations_metric inp /\
+    (forall u, In u (in_user inp) -> False) /\
+    reachable inp s /\ move_ok inp s mv /\
+    has_max_wait_vehicle inp = true /\ est_max_wait_vehicle_arrival_only inp s mv = false /\
+    move_executable_arrival_only inp s mv = true /\
+    exec_checked_arrival_only inp s mv = (s', r) /\ r = Rejected KMaxWaitVehicle /\ same_obs s' s /\
+    exec_move inp s mv = (s', r) /\
+    ~ dgroups_inert inp.
+Proof.
+  exists dgv_inp, dgv_s1, dg_mvU, dgv_s2, (Rejected KMaxWaitVehicle).
+  split; [exact dgv_wf|].
+  split; [unfold input_windows_ok, dgv_inp; cbn [in_stops]; repeat constructor; cbn; try lia; reflexivity|].
+  split; [split; [|apply distances_nonneg_b_ok; vm_compute; reflexivity]|].
+  { unfold dgv_inp. cbn [in_duration]. unfold dg_mat. repeat constructor; lia. }
+  split; [apply stop_durations_nonneg_b_ok; vm_compute; reflexivity|].
+  split; [vm_compute; repeat constructor; discriminate|].
+  split; [apply durations_metric_b_ok; vm_compute; reflexivity|].
+  split; [intros u Hu; exact Hu|].
+  split; [exact dgv_reachable|]. split; [exact dgv_mvU_ok|].
+  split; [vm_compute; reflexivity|]. split; [vm_compute; reflexivity|].
+  split; [vm_compute; reflexivity|]. split; [vm_compute; reflexivity|].
+  split; [reflexivity|].
+  split; [vm_compute; repeat split; intros H; exact H|].
+  split; [vm_compute; reflexivity|].
+  intros [H|H].
+  - vm_compute in H. discriminate.
+  - unfold dgv_inp in H. cbn [in_dgroups] in H. inversion H as [|? ? H1 _]; subst.
+    cbn [snd] in H1. discriminate.
+Qed.
+
+(* AFTER THE REPAIR, on the same witnesses: the end of X is 1200 on the new
+   route and 600 on the old one, the break is not taken, the simulation goes
+   on to Z (wait 2400 > 60) and the estimates answer "violated": the moves are
+   not offered any more and the solutions are left alone *)
+Theorem dg_repaired_rejects :
+  est_max_wait_stop_arrival_only dg_inp dg_s1 dg_mvU = false /\
+  est_max_wait_stop dg_inp dg_s1 dg_mvU = true /\
+  move_executable dg_inp dg_s1 dg_mvU = false /\
+  exec_checked dg_inp dg_s1 dg_mvU = (dg_s1, NotExecutable) /\
+  est_max_wait_vehicle_arrival_only dgv_inp dgv_s1 dg_mvU = false /\
+  est_max_wait_vehicle dgv_inp dgv_s1 dg_mvU = true /\
+  move_executable dgv_inp dgv_s1 dg_mvU = false /\
+  exec_checked dgv_inp dgv_s1 dg_mvU = (dgv_s1, NotExecutable).
+Proof. repeat split; vm_compute; reflexivity. Qed.
+
+(* with the groups switched off (dgroups_inert holds) the same move is offered
+   by both versions of the estimates and executed *)
+Definition dg_off_inp : input :=
+  mkInput [] [dg_plain; dg_plain; dg_Z; dg_plain] [dg_veh]
+          [mkIUnit [0; 1; 2]%nat []; mkIUnit [3%nat] []]
+          dg_mat dg_mat 0
+          (mkOptions false false false false false false false false false false false 0 1 0 1 true)
+          [([0; 1]%nat, 600)].
+Definition dg_off_s0 : state :=
+  Eval vm_compute in match new_solution dg_off_inp with Some s => s | None => w_dummy end.
+Definition dg_off_s1 : state := Eval vm_compute in fst (exec_move dg_off_inp dg_off_s0 dg_mvAXZ).
+
+Example dg_off_executes :
+  dgroups_inert dg_off_inp /\
+  new_solution dg_off_inp = Some dg_off_s0 /\
+  exec_move dg_off_inp dg_off_s0 dg_mvAXZ = (dg_off_s1, Done) /\
+  move_executable_arrival_only dg_off_inp dg_off_s1 dg_mvU = true /\
+  move_executable dg_off_inp dg_off_s1 dg_mvU = true /\
+  snd (exec_checked dg_off_inp dg_off_s1 dg_mvU) = Done.
+Proof.
+  split; [apply dgroups_inert_b_ok; vm_compute; reflexivity|].
+  repeat split; vm_compute; reflexivity.
+Qed.
+
+(* a move behind which the arrival at X is unchanged AND the end of X is
+   unchanged, in the presence of an active group: U (3) inserted between A and
+   X where U is in the group of A and X (the group is not paid again).  The
+   repaired estimates take the break and the move is executed. *)
+Definition dgk_inp : input :=
+  mkInput [] [dg_plain; dg_plain; dg_Z; dg_plain] [dg_veh]
+          [mkIUnit [0; 1; 2]%nat []; mkIUnit [3%nat] []]
+          dg_mat dg_mat 0 dg_opts [([0; 1; 3]%nat, 600)].
+Definition dgk_s0 : state :=
+  Eval vm_compute in match new_solution dgk_inp with Some s => s | None => w_dummy end.
+Definition dgk_s1 : state := Eval vm_compute in fst (exec_move dgk_inp dgk_s0 dg_mvAXZ).
+
+Example dg_groups_on_executes :
+  ~ dgroups_inert dgk_inp /\
+  new_solution dgk_inp = Some dgk_s0 /\
+  exec_move dgk_inp dgk_s0 dg_mvAXZ = (dgk_s1, Done) /\
+  has_max_wait_stop dgk_inp = true /\
+  move_executable dgk_inp dgk_s1 dg_mvU = true /\
+  snd (exec_checked dgk_inp dgk_s1 dg_mvU) = Done.
+Proof.
+  split.
+  { intros [H|H].
+    - vm_compute in H. discriminate.
+    - unfold dgk_inp in H. cbn [in_dgroups] in H. inversion H as [|? ? H1 _]; subst.
+      cbn [snd] in H1. discriminate. }
+  repeat split; vm_compute; reflexivity.
 Qed.
